@@ -406,3 +406,30 @@ contract(F03 + "Length_Selector.tostr", types=dict(self="Base"), returns="str",
     ensures={"every_part_is_printed": "squeeze(result) == squeeze(str(self.items[0]) + str(self.items[1]) if len(self.items) == 2 else "
                                       "str(self.items[0]) + 'LEN = ' + str(self.items[1]) + str(self.items[2]))"},
     raises=[], serves=["C01", "C02"])
+
+contract(F03 + "Enumerator.match", types=dict(string="str"), returns="tuple[ref:Base,str,ref:Base]?", modifies=["rule_evals"],
+    calls={"Named_Constant": "proto:operand_rule", "Scalar_Int_Initialization_Expr": "proto:operand_rule"},
+    ensures={
+        "needs_an_equals_sign": "implies('=' not in string, result is None)",
+        "name_before_value_after_the_first_equals_sign": "implies(result is not None, rule_text(nonnull(result)[0]) == string[:string.find('=')].rstrip() and "
+            "nonnull(result)[1] == '=' and rule_text(nonnull(result)[2]) == string[string.find('=') + 1:].lstrip())",
+    }, raises={"*": {}}, serves=["C02"])
+
+contract(F03 + "Type_Param_Decl.match", types=dict(string="str"), returns="tuple[ref:Base,str,ref:Base]?", modifies=["rule_evals"],
+    calls={"Type_Param_Name": "proto:operand_rule", "Scalar_Int_Initialization_Expr": "proto:operand_rule"},
+    ensures={
+        "needs_an_equals_sign": "implies('=' not in string, result is None)",
+        "name_before_value_after_the_first_equals_sign": "implies(result is not None, rule_text(nonnull(result)[0]) == string[:string.find('=')].rstrip() and "
+            "nonnull(result)[1] == '=' and rule_text(nonnull(result)[2]) == string[string.find('=') + 1:].lstrip() and "
+            "rule_text(nonnull(result)[0]) != '' and rule_text(nonnull(result)[2]) != '')",
+    }, raises={"*": {}}, serves=["C02"])
+
+_BSL = "(string[:string.find('::')] if '::' in string else string[:string.find(')')])"
+_BSR = "(string[string.find('::') + 2:] if '::' in string else string[string.find(')') + 1:])"
+contract(F03 + "Bind_Stmt.match", types=dict(string="str"), returns="tuple[ref:Base,ref:Base]?", modifies=["rule_evals"],
+    calls={"Language_Binding_Spec": "proto:operand_rule", "Bind_Entity_List": "proto:operand_rule"},
+    ensures={
+        "needs_colons_or_a_closing_parenthesis": "implies('::' not in string and ')' not in string, result is None)",
+        "binding_before_entities_after": "implies(result is not None, rule_text(nonnull(result)[0]) == " + _BSL + ".rstrip() and rule_text(nonnull(result)[1]) == " + _BSR + ".lstrip() and "
+            "rule_text(nonnull(result)[0]) != '' and rule_text(nonnull(result)[1]) != '')",
+    }, raises={"*": {}}, serves=["C02"])
